@@ -120,8 +120,8 @@ PROPS = {
              "discharged by the solver; arrays longer than the bounds inside a single step; key functions other than the identity.",
         ref="DESIGN.md section 6 C17, section 11"),
     "C18": dict(
-        text="Bounded model checking of code-point semantics where it was reachable in the quick tier: slice-range arithmetic against the character count's contract, the radix parser reporting the offending character (not byte), and the order of strings (byte order of UTF-8 equals code-point order, two arbitrary characters per string).",
-        note='Out: everything that builds strings under the solver (substr / findSubstr / strip / split / join identities, std.length, s[i], slices of symbolic strings, format widths): those harnesses exist but were not decided within 25 min once the unsound String::reserve stub of the first session was replaced; they are thorough-tier attempts.',
+        text="Bounded model checking of code-point semantics where it was reachable in the quick tier: slice-range arithmetic against the character count's contract, string slices (s[a:b:c], std.slice) handing the number of code points - not bytes - of strings of two arbitrary characters (UTF-8 widths (2,3), (4,1), (1,1)) to that arithmetic, the radix parser reporting the offending character (not byte), and the order of strings (byte order of UTF-8 equals code-point order, two arbitrary characters per string).",
+        note='Out: everything that builds strings under the solver (substr / findSubstr / strip / split / join identities, std.length, s[i], the character selection of slices of symbolic strings, format widths): those harnesses exist but were not decided within 25 min once the unsound String::reserve stub of the first session was replaced; they are thorough-tier attempts.',
         ref="DESIGN.md section 6 C18, section 11"),
     "C19": dict(
         text="Bounded model checking of std.format's field padding (width counted in characters, justification) at both call "
